@@ -136,7 +136,8 @@ class Ctx:
         if got.shape != ref.shape:
             return self.check(mon, False,
                 f'{msg}: shape {got.shape} != {ref.shape}', **detail)
-        tol = np.asarray(tol, dtype=np.longdouble)
+        tol = np.asarray(tol, dtype=np.longdouble) + getattr(self,
+            'abs_floor', 0.)
         with np.errstate(all='ignore'):
             diff = np.abs(got - ref)
             ok = bool(np.all(diff <= tol))
